@@ -201,6 +201,7 @@ type gen struct {
 	ops     []op
 	tags    map[string]bool
 	arrT    []int64 // arrival times so far
+	older   bool    // this history may contain packets older than the first of their stream
 }
 
 func (g *gen) tag(s string) { g.tags[s] = true }
@@ -240,7 +241,7 @@ func (g *gen) add(big bool) {
 	case c < 18: // reordered / late
 		v = s.v - 1 - int64(g.r.Intn(12))
 		g.tag("late")
-	case c < 19: // older than the first packet of the stream
+	case c < 19 && g.older: // older than the first packet of the stream
 		v = s.first - 1 - int64(g.r.Intn(5))
 		g.tag("older-than-first")
 	default: // jump
@@ -253,7 +254,7 @@ func (g *gen) add(big bool) {
 		s.v++
 		g.tag("jump")
 	}
-	if v < 0 {
+	if v < 0 || (v < s.first && !g.older) {
 		v = s.v
 		s.v++
 	}
@@ -316,7 +317,7 @@ func (g *gen) build(big bool) {
 }
 
 func genCase(r *rand.Rand, big bool) ([]op, []string) {
-	g := &gen{r: r, now: 1700000000*sec + r.Int63n(100000000)*sec/100, tags: map[string]bool{}}
+	g := &gen{r: r, now: 1700000000*sec + r.Int63n(100000000)*sec/100, tags: map[string]bool{}, older: r.Intn(12) == 0}
 	k := 1 + r.Intn(5)
 	if r.Intn(3) == 0 {
 		k = 1
